@@ -27,6 +27,25 @@
 //! check makes: bulk + small enumerated families + random cases, only those two monitors reported,
 //! no model comparison.
 //!
+//! Receiving side of the window (also part of `--focus C03`): the peer `P` is a conforming writer (a `pw`
+//! step is a `poll_write` of `P`'s own `MuxStream`; without credit it is `Pending` and nothing is sent).
+//! * `ack-before-consume`: whenever `B` puts an `Acknowledge` of the bridged flow on the wire, the counts
+//!   acknowledged since the handshake must not exceed the number of `Push` frames the bridge has TAKEN out of
+//!   the stream's receive queue. "Taken" is derived from the local side alone: the bridge offers every frame it
+//!   takes to `poll_write` at once, remainder first, so `bytes accepted before the call + length offered` is the
+//!   end offset (in the peer's byte stream) of the last frame taken; the frames that start before the largest
+//!   such offset (frame boundaries = payload lengths of the `Push` frames handed to `B`) are the taken ones.
+//!   No counter of the implementation is read.
+//! * `peer-reset-for-overrun`: `B` sends no `Reset` of the flow while the local side has not failed, nobody
+//!   aborted, the peer has neither reset nor dropped its stream and the bridge has not failed (the bridge's
+//!   stream lives until the end of the case, so the only `Reset` left is the one for a `Push` that found the
+//!   receive queue full).
+//! * bulk-in cases (part of the bulk family): the local side's `poll_write` stalls / accepts one frame or one
+//!   byte at a time / accepts `threshold - 1` or `threshold` frames between stalls, while the peer writes bursts
+//!   of `2 * rwnd` frames (as many as its credit allows get through) before every bridge poll, so that the
+//!   bridge comes back to a full queue; for window / threshold pairs from 1/1 to 8/8 (threshold < window,
+//!   threshold = window), with the local → mux direction idle, ended early or carrying traffic of its own.
+//!
 //! `--pinned` compares with the model of the pinned code (`Penguin.Bridge.pinned`; used to confirm
 //! on the unrepaired tree that the model mirrors both defects). `--kl/--km/--kd N` override the
 //! enumeration bounds. A bridge that ends blocked on credit because the peer application dropped
@@ -320,6 +339,11 @@ struct Shared {
     write_after_shut: bool,
     fill_after_eof: bool,
     unused_api: bool,
+    /// largest `bytes accepted so far + length offered` over the `poll_write` calls: the end offset, in the
+    /// peer's byte stream, of the last frame the bridge has taken out of the stream's receive queue
+    offered_end: usize,
+    /// the script has answered an operation with an error (or a zero-length write)
+    local_err: bool,
 }
 
 impl Shared {
@@ -393,7 +417,10 @@ impl AsyncBufRead for ScriptedLocal {
                 sh.keep(SLOT_FILL, cx, later);
                 Poll::Pending
             }
-            Ans::Err(c) => Poll::Ready(Err(script_err(c))),
+            Ans::Err(c) => {
+                sh.local_err = true;
+                Poll::Ready(Err(script_err(c)))
+            }
         }
     }
 
@@ -411,6 +438,8 @@ impl AsyncBufRead for ScriptedLocal {
 impl AsyncWrite for ScriptedLocal {
     fn poll_write(self: Pin<&mut Self>, cx: &mut Context<'_>, buf: &[u8]) -> Poll<io::Result<usize>> {
         let mut sh = self.sh.lock().expect("sh");
+        // (before anything that may unwind: the frame has been taken whatever happens to this call)
+        sh.offered_end = sh.offered_end.max(sh.accepted.len() + buf.len());
         sh.spend();
         if sh.shut_called {
             sh.write_after_shut = true;
@@ -424,6 +453,9 @@ impl AsyncWrite for ScriptedLocal {
         sh.calls.push(LCall::Write(buf.len(), a.clone()));
         match a {
             Ans::Ready(n) => {
+                if n == 0 && !buf.is_empty() {
+                    sh.local_err = true;
+                }
                 sh.accepted.extend_from_slice(&buf[..n]);
                 Poll::Ready(Ok(n))
             }
@@ -431,7 +463,10 @@ impl AsyncWrite for ScriptedLocal {
                 sh.keep(SLOT_WRITE, cx, later);
                 Poll::Pending
             }
-            Ans::Err(c) => Poll::Ready(Err(script_err(c))),
+            Ans::Err(c) => {
+                sh.local_err = true;
+                Poll::Ready(Err(script_err(c)))
+            }
         }
     }
 
@@ -446,7 +481,10 @@ impl AsyncWrite for ScriptedLocal {
                 sh.keep(SLOT_FLUSH, cx, later);
                 Poll::Pending
             }
-            Ans::Err(c) => Poll::Ready(Err(script_err(c))),
+            Ans::Err(c) => {
+                sh.local_err = true;
+                Poll::Ready(Err(script_err(c)))
+            }
         }
     }
 
@@ -465,7 +503,10 @@ impl AsyncWrite for ScriptedLocal {
                 sh.keep(SLOT_SHUT, cx, later);
                 Poll::Pending
             }
-            Ans::Err(c) => Poll::Ready(Err(script_err(c))),
+            Ans::Err(c) => {
+                sh.local_err = true;
+                Poll::Ready(Err(script_err(c)))
+            }
         }
     }
 }
@@ -536,6 +577,10 @@ struct World {
     dead_peer: bool,
     /// size of the peer application's reads in the completion phase
     final_read: usize,
+    /// start offset (in `delivered`) of every `Push` frame handed to `B`, and whether it is empty
+    frame_starts: Vec<(usize, bool)>,
+    /// sum of the counts of the `Acknowledge` frames `B` has put on the wire for the flow since the handshake
+    acked: u64,
 }
 
 const OP_ACK: u8 = 1;
@@ -642,6 +687,8 @@ impl World {
             write_after_shut: false,
             fill_after_eof: false,
             unused_api: false,
+            offered_end: 0,
+            local_err: false,
         }));
         let local = ScriptedLocal { buf: vec![], sh: sh.clone() };
         let bridge: Pin<Box<dyn DFut>> = Box::pin(stream.into_copy_bidirectional_with_buf(local));
@@ -683,6 +730,8 @@ impl World {
             dead_peer: false,
             // bulk cases: the peer application reads whole frames, so that 64 reads drain everything
             final_read: if case.lfill.iter().any(|a| matches!(a, Ans::Ready(d) if d.len() > 1024)) { 1 << 18 } else { 4096 },
+            frame_starts: vec![],
+            acked: 0,
         }
     }
 
@@ -715,6 +764,7 @@ impl World {
             OP_PUSH if !self.rx_end => {
                 self.reqs.push(format!("ev push {}", hexd(&payload)));
                 self.trace.push(abbr(&format!("  -> stream: Push {}", hexd(&payload))));
+                self.frame_starts.push((self.delivered.len(), payload.is_empty()));
                 self.delivered.extend_from_slice(&payload);
                 wake_r = true;
             }
@@ -753,6 +803,16 @@ impl World {
         wires_of(&evs)
     }
 
+    /// How many of the `Push` frames handed to `B` the bridge has taken out of the stream's receive queue, as
+    /// seen from the local side: a frame is offered to `poll_write` as soon as it is taken, so the frames that
+    /// start before the largest offset offered so far have been taken (an empty frame carries nothing to
+    /// offer: one that starts exactly there counts as taken, which keeps the monitor sound). Also returns
+    /// that offset.
+    fn frames_taken(&self) -> (u64, usize) {
+        let end = self.sh.lock().expect("sh").offered_end;
+        (self.frame_starts.iter().filter(|(start, empty)| *start < end || (*empty && *start <= end)).count() as u64, end)
+    }
+
     /// Look at what `B` put on the wire (the bridge's frames among it), hand it to `P`.
     fn from_b(&mut self, wires: Vec<String>) -> (Vec<Vec<u8>>, u32, Vec<String>) {
         let mut pushes = vec![];
@@ -773,6 +833,40 @@ impl World {
                         OP_FIN => {
                             self.fin_frames += 1;
                             fins += 1;
+                        }
+                        OP_ACK if payload.len() >= 4 => {
+                            let n = u64::from(u32::from_be_bytes([payload[0], payload[1], payload[2], payload[3]]));
+                            self.acked += n;
+                            let (taken, offered_end) = self.frames_taken();
+                            self.trace.push(format!("  <- stream: Acknowledge {n} (acknowledged so far {}, frames taken by the bridge {taken})", self.acked));
+                            if self.acked > taken {
+                                let (acked, handed) = (self.acked, self.frame_starts.len());
+                                self.fail(
+                                    "ack-before-consume",
+                                    format!(
+                                        "the bridge's endpoint has acknowledged {acked} Push frames of the flow (this Acknowledge: {n}) but the bridge has taken only {taken} \
+out of the receive queue ({handed} handed to the endpoint; the last frame offered to the local side ends at byte {offered_end} of the peer's data): \
+the peer is given credit for frames that still occupy the window"
+                                    ),
+                                );
+                            }
+                        }
+                        OP_RST => {
+                            self.trace.push("  <- stream: Reset".into());
+                            let local_err = self.sh.lock().expect("sh").local_err;
+                            let failed = matches!(self.finished, Some(Res::Err(_) | Res::Panic(_)));
+                            if !self.aborted && self.p_alive && !self.closed && !local_err && !failed {
+                                let (taken, _) = self.frames_taken();
+                                let (acked, handed) = (self.acked, self.frame_starts.len());
+                                self.fail(
+                                    "peer-reset-for-overrun",
+                                    format!(
+                                        "the bridge's endpoint reset the flow although the local side is healthy, nobody aborted, the peer neither reset nor dropped its stream \
+and writes only when its own stream grants credit: {handed} Push frames handed to the endpoint, {taken} taken by the bridge, {acked} acknowledged, receive window {}",
+                                        self.b.opts.rwnd
+                                    ),
+                                );
+                            }
                         }
                         _ => {}
                     }
@@ -1446,6 +1540,57 @@ fn local_combinations(kl: usize) -> Vec<LocalScripts> {
     out
 }
 
+/// Local `poll_write` behaviours of the bulk-in cases and what the local → mux direction does meanwhile.
+const BULK_IN_WRITES: usize = 7;
+const BULK_IN_SHAPES: usize = 3;
+
+/// Bulk-in: the mux → local direction under back-pressure. The local side's `poll_write` follows pattern
+/// `wk` for `rounds` rounds (afterwards it is co-operative); before every bridge poll the peer writes a
+/// burst of `2 * rwnd` three-byte frames (as many as its credit allows get through), so the bridge comes
+/// back to a queue that is as full as a conforming peer can make it.
+fn bulk_in_case(rwnd: u32, thr: u32, wk: usize, shape: usize, rounds: usize) -> Case {
+    let mut pb = Bytegen { next: 0, base: 0x01 };
+    let mut lb = Bytegen { next: 0, base: 0x80 };
+    let t = thr as usize;
+    let round: Vec<Ans<usize>> = match wk {
+        // stalled, woken later / stalled, polled again without a wake-up
+        0 => vec![Ans::Pending(true)],
+        1 => vec![Ans::Pending(false)],
+        // slow: one frame / one byte per round
+        2 => vec![Ans::Ready(64), Ans::Pending(true)],
+        3 => vec![Ans::Ready(1), Ans::Pending(true)],
+        // one frame short of a batch, exactly a batch, one frame more, then stalled
+        4 => std::iter::repeat_n(Ans::Ready(64), t.saturating_sub(1)).chain([Ans::Pending(true)]).collect(),
+        5 => std::iter::repeat_n(Ans::Ready(64), t).chain([Ans::Pending(true)]).collect(),
+        _ => std::iter::repeat_n(Ans::Ready(64), t + 1).chain([Ans::Pending(true)]).collect(),
+    };
+    let lwrite: Vec<Ans<usize>> = std::iter::repeat_n(round, rounds).flatten().collect();
+    let lfill: Vec<Ans<Vec<u8>>> = match shape {
+        // the other direction: idle throughout / ends at the second poll (Finish goes out early) / has traffic of its own
+        0 => vec![Ans::Pending(false); 2 * rounds + 8],
+        1 => vec![Ans::Pending(false)],
+        _ => (0..2 * rounds + 8).map(|k| if k % 3 == 1 { Ans::Ready(lb.take(2)) } else { Ans::Pending(k % 3 == 2) }).collect(),
+    };
+    let burst = |steps: &mut Vec<Step>, pb: &mut Bytegen| {
+        for _ in 0..2 * rwnd {
+            steps.push(Step::PeerWrite(pb.take(3)));
+        }
+    };
+    let mut steps = vec![Step::Poll];
+    burst(&mut steps, &mut pb);
+    steps.push(Step::Poll);
+    for k in 0..rounds + 2 {
+        burst(&mut steps, &mut pb);
+        steps.push(Step::LWake);
+        steps.push(Step::Poll);
+        if shape == 2 && k % 2 == 1 {
+            steps.push(Step::PeerRead(64));
+        }
+    }
+    // (the threshold in force on `B`'s stream is min(thr, B's window, P's window): P's window must not cap it)
+    Case { credit: rwnd.max(2), rwnd_b: rwnd, thr_p: 1, thr_b: thr, lfill, lwrite, lwrite_rep: false, lflush: vec![], lshut: vec![], steps }
+}
+
 const DEEP_FILL_EVS: usize = 5;
 const DEEP_WRITE_EVS: usize = 4;
 
@@ -1454,6 +1599,8 @@ struct Plan {
     corpus: Vec<(String, Case)>,
     /// bulk family: a lot of data readable at once on the local side (chunk sizes, what follows them)
     bulk: Vec<(Vec<usize>, u8)>,
+    /// bulk-in: (receive window, acknowledgement threshold) of the bridge's endpoint, rounds of back-pressure
+    bulk_in: Vec<(u32, u32, usize)>,
     /// bounded-exhaustive: locals × evs × credit {1, 2}
     locals: Vec<LocalScripts>,
     evs: Vec<Vec<MuxEv>>,
@@ -1487,11 +1634,27 @@ impl Plan {
                 bulk.push((s.to_vec(), ((i + 1) % 3) as u8));
             }
         }
+        // window / threshold pairs: threshold 1, 2, half, one less than the window, the window itself
+        let mut bulk_in: Vec<(u32, u32, usize)> = vec![];
+        let rwnds: &[u32] = if bulk_all { &[1, 2, 3, 4, 5, 8, 16, 32] } else { &[2, 3, 4, 8] };
+        for &rwnd in rwnds {
+            let mut thrs = vec![1, 2, rwnd / 2, rwnd - 1, rwnd];
+            thrs.retain(|t| *t >= 1 && *t <= rwnd);
+            thrs.sort_unstable();
+            thrs.dedup();
+            for thr in thrs {
+                bulk_in.push((rwnd, thr, 3));
+                if bulk_all {
+                    bulk_in.push((rwnd, thr, 7));
+                }
+            }
+        }
         let ev_alpha = [MuxEv::Write1, MuxEv::Write2, MuxEv::Fin, MuxEv::Rst, MuxEv::Read, MuxEv::Abort];
         let deep_ev_alpha = [MuxEv::Write2, MuxEv::Fin, MuxEv::Rst, MuxEv::Read];
         Self {
             corpus,
             bulk,
+            bulk_in,
             locals: local_combinations(kl),
             evs: seqs(&ev_alpha, km),
             deep_fills: seqs(&fill_alpha(), kd),
@@ -1508,8 +1671,14 @@ impl Plan {
     fn n_deep(&self) -> usize {
         self.deep_fills.len() * DEEP_FILL_EVS * 3 + self.deep_writes.len() * DEEP_WRITE_EVS * 3 + self.deep_evs.len()
     }
-    fn n_bulk(&self) -> usize {
+    fn n_bulk_out(&self) -> usize {
         self.bulk.len() * 2
+    }
+    fn n_bulk_in(&self) -> usize {
+        self.bulk_in.len() * BULK_IN_WRITES * BULK_IN_SHAPES
+    }
+    fn n_bulk(&self) -> usize {
+        self.n_bulk_out() + self.n_bulk_in()
     }
     fn len(&self) -> usize {
         self.corpus.len() + self.n_bulk() + self.n_exhaustive() + self.n_deep() + self.n_short + self.n_long
@@ -1520,7 +1689,12 @@ impl Plan {
         }
         i -= self.corpus.len();
         let base = |credit: u32, rwnd_b: u32| Case { credit, rwnd_b, thr_p: 1, thr_b: 1, lfill: vec![], lwrite: vec![], lwrite_rep: false, lflush: vec![], lshut: vec![], steps: vec![] };
-        if i < self.n_bulk() {
+        if i >= self.n_bulk_out() && i < self.n_bulk() {
+            let k = i - self.n_bulk_out();
+            let (rwnd, thr, rounds) = self.bulk_in[k / (BULK_IN_WRITES * BULK_IN_SHAPES)];
+            return ("bulk-in".into(), bulk_in_case(rwnd, thr, k % BULK_IN_WRITES, (k / BULK_IN_WRITES) % BULK_IN_SHAPES, rounds));
+        }
+        if i < self.n_bulk_out() {
             // credit 1 and 2; after the chunks: end-of-file / Pending with a later wake-up / a read error
             let (sizes, tail) = &self.bulk[i / 2];
             let mut c = base(1 + (i % 2) as u32, 2);
@@ -1672,7 +1846,7 @@ fn evaluate_group(group: &[(String, Case)], mode: &str, part: &mut Part, drv: &m
 }
 
 /// The monitors that speak about credit (C03's share of the bridge).
-const CREDIT_KEYS: [&str; 2] = ["credit-overrun", "credit-per-frame"];
+const CREDIT_KEYS: [&str; 4] = ["credit-overrun", "credit-per-frame", "ack-before-consume", "peer-reset-for-overrun"];
 
 #[allow(clippy::too_many_arguments)]
 fn evaluate(case: &Case, origin: &str, mode: &str, part: &mut Part, drv: &mut Option<Driver>, o: Outcome, pre: Option<Option<(usize, String, String)>>, credit_only: bool) {
@@ -1846,7 +2020,14 @@ non-trivial = at least one byte was relayed or the bridge was polled at least tw
         }
     }
     rep.exhaustive = false;
-    rep.notes.push(format!("{n_bulk} bulk cases (two or three chunks of up to 200000 bytes readable at once on the local side, credit 1 and 2)"));
+    rep.notes.push(format!(
+        "{n_bulk} bulk cases: {} with two or three chunks of up to 200000 bytes readable at once on the local side, credit 1 and 2; {} bulk-in cases \
+(local poll_write stalled / one frame or one byte per round / threshold-1, threshold, threshold+1 frames per round, peer bursts of 2 x window frames before \
+every bridge poll, {} window/threshold pairs of the bridge's endpoint, the other direction idle / ended early / busy)",
+        plan.n_bulk_out(),
+        plan.n_bulk_in(),
+        plan.bulk_in.len()
+    ));
     rep.notes.push(format!(
         "{n_enum} enumerated cases: every combination of local scripts with at most {kl} answers in total over alphabets of 6/6/4/4 answers x every \
 mux-side event list of length <= {km} over 6 events x credit 1,2 (canonical schedule), plus single-script families up to {kd} answers; \
